@@ -107,7 +107,8 @@ def group_filters(ctx, rep, rule, sn, names=('deserialize_pk', 'deserialize_sk',
                                 return True
                 return False
             is_ident = lambda x: x[0] == 'app' and x[1].endswith('Identity::identity')
-            is_zero = lambda x: (x[0] == 'bytes' and set(x[1]) <= {0} and len(x[1]) >= 16) or (x[0] == 'app' and x[1].endswith('to_bytes') and x[2] and x[2][0][0] == 'bytes' and set(x[2][0][1]) <= {0})
+            is_zero = lambda x: (x[0] == 'bytes' and set(x[1]) <= {0} and len(x[1]) >= 16) or (x[0] == 'app' and x[1].endswith('to_bytes') and x[2] and x[2][0][0] == 'bytes' and set(x[2][0][1]) <= {0}) or (
+                    x[0] == 'unk' and str(x[1]).endswith('scalar::Scalar::ZERO'))     # the dependency's zero constant passed by value (not evaluated to bytes by the extractor)
             checks = []
             if name == 'deserialize_pk':
                 if ke == 'r255':
